@@ -89,6 +89,7 @@ def sec_sv_tables(rep):
     from . import c05
 
     c05.sec_tables(rep)
+    c05.sec_common_product_native(rep)
 
 
 def sec_tmc_support(rep):
